@@ -67,7 +67,7 @@ struct BrokerOut {
 
 /// answer policy: 0 at once, 1 random batches, 2 one reply per episode in random channel order,
 /// 3 hold until every running channel waits (or 15 ms), then all heads in random order
-fn broker(peer: Peer, policy: u64, seed: u64, running: Arc<AtomicUsize>, stop: Arc<AtomicBool>, kill_after: Option<usize>) -> BrokerOut {
+fn broker(peer: Peer, policy: u64, seed: u64, running: Arc<AtomicUsize>, stop: Arc<AtomicBool>, kill_after: Option<usize>, close_at: Arc<Mutex<BTreeMap<u16, (usize, bool)>>>) -> BrokerOut {
     let mut rng = Rng::new(seed);
     let mut out = BrokerOut { seen: BTreeMap::new(), bad_stream: false };
     let mut pend: BTreeMap<u16, VecDeque<AMQPFrame>> = BTreeMap::new();
@@ -76,6 +76,8 @@ fn broker(peer: Peer, policy: u64, seed: u64, running: Arc<AtomicUsize>, stop: A
     let mut last_len = 0usize;
     let mut hold_since: Option<Instant> = None;
     let mut program_frames = 0usize;
+    let mut syncs_seen: BTreeMap<u16, usize> = BTreeMap::new();
+    let mut srv_closed: std::collections::BTreeSet<u16> = Default::default();
     loop {
         if stop.load(Ordering::SeqCst) || peer.dropped() {
             return out;
@@ -112,6 +114,9 @@ fn broker(peer: Peer, policy: u64, seed: u64, running: Arc<AtomicUsize>, stop: A
                     AMQPClass::Channel(channel::AMQPMethod::Open(_)) => {
                         peer.push_frames(&[AMQPFrame::Method(*ch, AMQPClass::Channel(channel::AMQPMethod::OpenOk(channel::OpenOk { channel_id: "".into() })))]);
                     }
+                    AMQPClass::Channel(channel::AMQPMethod::Close(_)) if srv_closed.contains(ch) => {
+                        // the server has closed that channel itself: it only waits for the CloseOk
+                    }
                     AMQPClass::Channel(channel::AMQPMethod::Close(_)) => {
                         // behind whatever is still owed on that channel
                         pend.entry(*ch).or_default().push_back(AMQPFrame::Method(*ch, AMQPClass::Channel(channel::AMQPMethod::CloseOk(channel::CloseOk {}))));
@@ -120,8 +125,24 @@ fn broker(peer: Peer, policy: u64, seed: u64, running: Arc<AtomicUsize>, stop: A
                         if let Some((sync, r, rep)) = classify(*ch, other) {
                             program_frames += 1;
                             out.seen.entry(*ch).or_default().push((sync, r));
-                            if let Some(rep) = rep {
-                                pend.entry(*ch).or_default().push_back(rep);
+                            if srv_closed.contains(ch) {
+                                // a request on a channel the server has closed is discarded
+                            } else if let Some(rep) = rep {
+                                let cnt = syncs_seen.entry(*ch).or_default();
+                                *cnt += 1;
+                                let close = AMQPFrame::Method(*ch, AMQPClass::Channel(channel::AMQPMethod::Close(channel::Close { reply_code: 406, reply_text: "closed by the scenario".into(), class_id: 0, method_id: 0 })));
+                                match close_at.lock().unwrap().get(ch).copied() {
+                                    Some((k, false)) if k == *cnt => {
+                                        pend.entry(*ch).or_default().push_back(close);
+                                        srv_closed.insert(*ch);
+                                    }
+                                    Some((k, true)) if k == *cnt => {
+                                        pend.entry(*ch).or_default().push_back(rep);
+                                        pend.entry(*ch).or_default().push_back(close);
+                                        srv_closed.insert(*ch);
+                                    }
+                                    _ => pend.entry(*ch).or_default().push_back(rep),
+                                }
                             }
                         }
                     }
@@ -205,7 +226,9 @@ pub fn scenario(sub: u64) -> Option<(String, bool)> {
     // in a quarter of the scenarios the server goes away (end of stream) after a random number of requests
     let total: usize = progs.iter().map(|p| p.len()).sum();
     let kill_after = if rng.chance(1, 4) { Some(rng.range(1, total as u64) as usize) } else { None };
-    let bh = std::thread::spawn(move || broker(p2, policy, bseed, r2, s2, kill_after));
+    let close_at: Arc<Mutex<BTreeMap<u16, (usize, bool)>>> = Arc::new(Mutex::new(BTreeMap::new()));
+    let ca2 = close_at.clone();
+    let bh = std::thread::spawn(move || broker(p2, policy, bseed, r2, s2, kill_after, ca2));
     // the transport takes the client's bytes in small pieces now and then
     if rng.chance(1, 3) {
         let steps: VecDeque<WStep> = (0..rng.range(5, 60)).map(|_| if rng.chance(1, 4) { WStep::Block } else { WStep::Wrote(rng.range(1, 40) as usize) }).collect();
@@ -218,6 +241,18 @@ pub fn scenario(sub: u64) -> Option<(String, bool)> {
     for _ in 0..k {
         chans.push(conn.open_channel(None).ok()?);
     }
+    // in a third of the scenarios the server closes some of the channels (C09): instead of its
+    // answer to the k-th synchronous request of that channel, or right behind that answer
+    let mut closes: BTreeMap<u16, (usize, bool)> = BTreeMap::new();
+    if rng.chance(1, 3) {
+        for (ch, prog) in chans.iter().zip(progs.iter()) {
+            let ns = prog.iter().filter(|c| c.sync).count();
+            if ns > 0 && rng.chance(1, 2) {
+                closes.insert(ch.channel_id(), (rng.range(1, ns as u64) as usize, rng.boolean()));
+            }
+        }
+    }
+    *close_at.lock().unwrap() = closes.clone();
     running.store(k, Ordering::SeqCst);
     let results: Arc<Mutex<BTreeMap<u16, (Vec<u64>, bool)>>> = Arc::new(Mutex::new(BTreeMap::new()));
     let mut hs = Vec::new();
@@ -284,12 +319,13 @@ pub fn scenario(sub: u64) -> Option<(String, bool)> {
         let (got, failed) = res.get(id).cloned().unwrap_or((vec![], true));
         let seen = bo.seen.get(id).cloned().unwrap_or_default();
         chans_coq.push(format!(
-            "({}, {}, {}, {}, {})",
+            "({}, {}, {}, {}, {}, {})",
             id,
             coqfmt::list(prog, |c| format!("({}, {})", if c.sync { "KSync" } else { "KNowait" }, c.r)),
             coqfmt::list(&got, |x| x.to_string()),
             coqfmt::list(&seen, |(s, r)| format!("({}, {})", if *s { "KSync" } else { "KNowait" }, r)),
-            coqfmt::b(failed)
+            coqfmt::b(failed),
+            match closes.get(id) { None => "None".to_string(), Some((k, after)) => format!("(Some ({}, {}))", k, coqfmt::b(*after)) }
         ));
     }
     // a pseudo-random schedule for the model, derived from the same seed
@@ -331,6 +367,9 @@ pub fn run(a: &Args) {
                     sink.count("scenario");
                     if hung {
                         sink.count("hung");
+                    }
+                    if term.contains("(Some (") {
+                        sink.count("server-closed-a-channel");
                     }
                     if term.ends_with("true)") {
                         sink.count("server-went-away");
